@@ -19,9 +19,9 @@ fn main() {
     let mut bad = 0;
     let mut nodes = 0;
     for r in 0..rounds {
-        let root = build_root(seed.wrapping_add(r), turns, r % 2 == 1);
+        let root = if r % 3 == 2 { build_repetition_root(seed.wrapping_add(r)) } else { build_root(seed.wrapping_add(r), turns, r % 2 == 1) };
         let expected = sequential(&root, depth);
-        let rep = round(&root, depth, threads, r as u32, seed.wrapping_mul(31).wrapping_add(r), true, &expected);
+        let rep = round(&root, depth, threads, r as u32, seed.wrapping_mul(31).wrapping_add(r), true, if r % 3 == 2 { 6 } else { 1 }, &expected);
         nodes += rep.nodes * rep.threads;
         if rep.mismatching_threads > 0 || rep.root_changed {
             bad += 1;
@@ -32,6 +32,13 @@ fn main() {
     if total != threads * (tail + 16) {
         bad += 1;
         println!("MISMATCH shared_tail_lists total={}", total);
+    }
+    if arg(7, 0) != 1 {
+        let (span, n) = concurrent_last_owner_drop(1500, threads.min(4).max(2), 30);
+        if span > 8 * 1024 {
+            bad += 1;
+            println!("MISMATCH concurrent_last_owner_drop: stack span {} bytes while freeing a {}-node list", span, n);
+        }
     }
     println!("c18bare rounds={} threads={} depth={} nodes_compared={} mismatches={}", rounds, threads, depth, nodes, bad);
     std::process::exit(if bad > 0 { 1 } else { 0 });
